@@ -7,9 +7,12 @@ models are tied to /repo by `harness/props/C08.py` (op-level comparison of `modu
 `_kwargs_for_callable`, registry reads, the emitted declaration blocks per PYTHONHASHSEED) and the property itself
 is searched for violations by the multi-path differential of that file.
 
-Recorded defects (see known_findings.json):
-* F5  – `module_id` is not injective (`/a-b.html` vs `/a_b.html`): `registry_injective` is OPEN,
-        `registry_injective_partial` + `module_id_not_injective_counterexample` are proved.
+OPEN (recorded finding, see known_findings.json):
+* F5  – `module_id` is not injective (`/a-b.html` vs `/a_b.html`), so "every live template with its own URI reads
+        back its own source and code" is false and stays an OPEN comment in the registry section.  Proved instead:
+        `registry_injective` (own text iff no later registration wrote the key), `registry_injective_partial`
+        (own text under pairwise distinct module ids), `module_id_collision_iff` (exactly which URIs collide) and
+        `module_id_not_injective_counterexample`.
 Repaired (8e8e5a7, f319ac2; were F-C08-1/2/3): the generator used to print its sets in iteration order, which was
 observable in which `NameError` a strict template with two missing names raises and in the key order of the context a
 top-level def receives (`…_unsorted_counterexample` below document the old behaviour).  It now prints `sorted(set)`:
@@ -430,6 +433,12 @@ example : sourceOf (registerAll [⟨0, "_a_html".toList, none, "A".toList, "ca".
     ⟨1, "_b_html".toList, some "/m/b.html.py".toList, "B".toList, "cb".toList⟩])
     ⟨0, "_a_html".toList, none, "A".toList, "ca".toList⟩ = some "A".toList := by decide
 
+/-- the regular expression and the replacement of `module_id` (regenerated from the three `re.sub` calls of
+mako/template.py) are the ones `moduleIdOf` models: every non-word character (`\W`, complement of the regenerated
+`\w` table) becomes `_` -/
+theorem module_id_regex_is_modelled :
+    Generated.Paths8.moduleIdPattern = "\\W" ∧ Generated.Paths8.moduleIdRepl = '_' := by decide
+
 /-- `re.sub(r"\W", "_", ·)` identifies two strings exactly when they have the same length and differ only at
 positions where both have a non-word character or `_` -/
 theorem module_id_collision_iff (u v : Str) :
@@ -521,17 +530,19 @@ example : (CodeRef.mk none (some "/m/t.py".toList)).code
     some "v2".toList := by decide
 
 /-- the removal of the stale bytecode in `_compile_module_file` sits after the `if module_writer: … else: …` branch,
-i.e. on the path common to the default writer and to a custom `module_writer` (regenerated from the AST) -/
-theorem bytecode_dropped_after_both_writers : Generated.ModFile.dropsBytecode = true := by decide
+i.e. it runs after the default writer AND after a custom `module_writer` (one regenerated flag per branch, both read
+from the AST): moving it into either branch falsifies this -/
+theorem bytecode_dropped_after_both_writers :
+    Generated.ModFile.dropsBytecode = true ∧ Generated.ModFile.dropsBytecodeHook = true := by decide
 
-/-- **After a module file is regenerated in place, the regenerated module is the one that executes** – with either
-writer, whatever bytecode was cached before, and even when the new file has the same whole-second mtime and the same
-size as the old one (the case in which the import system would trust the old bytecode). -/
-theorem regenerated_module_executes (m : ModFile) (src : Str) (stamp : Nat × Nat) :
-    (m.regenerate Generated.ModFile.dropsBytecode src stamp).executes = src ∧
-    ((m.regenerate Generated.ModFile.dropsBytecode src stamp).imported).executes = src := by
+/-- **After a module file is regenerated in place, the regenerated module is the one that executes** – with the
+default writer (`hook = false`) and with a custom `module_writer` (`hook = true`), whatever bytecode was cached
+before, and even when the new file has the same whole-second mtime and the same size as the old one (the case in
+which the import system would trust the old bytecode). -/
+theorem regenerated_module_executes (hook : Bool) (m : ModFile) (src : Str) (stamp : Nat × Nat) :
+    (m.recompiled hook src stamp).executes = src ∧ ((m.recompiled hook src stamp).imported).executes = src := by
   have h := bytecode_dropped_after_both_writers
-  simp [ModFile.regenerate, ModFile.executes, ModFile.imported, h]
+  cases hook <;> simp [ModFile.recompiled, dropsAfter, ModFile.regenerate, ModFile.executes, ModFile.imported, h.1, h.2]
 
 /-- why the removal is needed (documentation): without it, a regeneration that keeps the stamp runs the OLD module -/
 theorem regenerated_module_stale_bytecode_counterexample :
@@ -539,7 +550,7 @@ theorem regenerated_module_stale_bytecode_counterexample :
     (m.regenerate false "module of B".toList (7, 100)).executes = "module of A".toList ∧
     (m.regenerate false "module of B".toList (7, 100)).src = "module of B".toList := by decide
 
-example : ((ModFile.mk "module of A".toList (7, 100) none).imported.regenerate Generated.ModFile.dropsBytecode
+example : ((ModFile.mk "module of A".toList (7, 100) none).imported.recompiled true
     "module of B".toList (7, 100)).executes = "module of B".toList := by decide
 
 /-! ## `get_def(name).render(**kw)` -/
